@@ -188,7 +188,9 @@ func (workerPoolSelf *DefaultWorkerPool) generateWorkerWithMaximum(maximum int) 
 		// Recover & Recycle
 		defer func() {
 			verifPoint("pool.worker.exit", workerPoolSelf)
+			isPanicked := false
 			if panic := recover(); panic != nil {
+				isPanicked = true
 				if handler := workerPoolSelf.panicHandler; handler != nil {
 					handler(panic)
 				}
@@ -199,7 +201,14 @@ func (workerPoolSelf *DefaultWorkerPool) generateWorkerWithMaximum(maximum int) 
 			if isBusy {
 				workerPoolSelf.workerBusy--
 			}
+			isUnderStandBy := workerPoolSelf.workerCount < workerPoolSelf.workerSizeStandBy
 			workerPoolSelf.lock.Unlock()
+
+			// A worker died (panic) or the pool fell below its stand-by size:
+			// let the spawn loop re-check, otherwise queued jobs wait for the next Schedule()
+			if isPanicked || isUnderStandBy {
+				workerPoolSelf.spawnWorkerCh.Offer(1)
+			}
 		}()
 
 		// Do Jobs
